@@ -259,6 +259,10 @@ class Layout:
             return any(self.test(v, env, fi) for v in node.values)
         if isinstance(node, ast.UnaryOp) and isinstance(node.op, ast.Not):
             return not self.test(node.operand, env, fi)
+        if isinstance(node, ast.Compare) and len(node.ops) > 1:
+            # a chained comparison is the conjunction of its links
+            operands = [node.left] + list(node.comparators)
+            return all(self.test(ast.copy_location(ast.Compare(left=operands[q], ops=[node.ops[q]], comparators=[operands[q + 1]]), node), env, fi) for q in range(len(node.ops)))
         if isinstance(node, ast.Compare) and len(node.ops) == 1:
             a = self.ev(node.left, env, fi)
             b = self.ev(node.comparators[0], env, fi)
